@@ -85,6 +85,8 @@ def synth_index(rng):
                 # the same alias again in another spelling, or a blank one: harmless within one entry
                 a0 = e['other_spdx_license_keys'][0]
                 e['other_spdx_license_keys'].append(rng.choice([a0.upper(), a0, '', '  ', ' ' + a0 + ' ']))
+        elif rng.random() < 0.2:
+            e['other_spdx_license_keys'] = None     # null, as the shipped file has for other optional fields
         if rng.random() < 0.8:
             e['is_exception'] = rng.random() < 0.3
         if rng.random() < 0.7:
@@ -282,6 +284,18 @@ def run(rep, tier, seed):
         rep.case(('synthetic', json.dumps(sidx, sort_keys=True)), nontrivial=True,
                  sample={'index': sidx, 'scancode': g1[0], 'spdx': g2[0]} if len(rep.samples) < 6 else None)
         rep.count('synthetic')
+        # an index of the shipped format is accepted or refused for what it says (ValueError, ExpressionError): nothing else escapes
+        for g, fn in ((g1, 'build_licensing'), (g2, 'build_spdx_licensing')):
+            if g[0] >= 4:
+                try:
+                    getattr(le, fn)(sidx)
+                    exn = 'nothing the second time'
+                except Exception as ex:   # noqa
+                    exn = '%s: %s' % (type(ex).__name__, ex)
+                rep.violations.append({'key': 'synthetic-crash', 'kind': 'index-build', 'index': sidx, 'text': json.dumps(sidx),
+                                       'what': '%s raised %s' % (fn, exn)})
+        if g1[0] >= 4 or g2[0] >= 4:
+            continue
         # independent expectation: which keys are known
         want_sc = [e.get('license_key', '') for e in sidx if not e.get('is_deprecated', False)]
         if g1[0] == 0:
@@ -352,6 +366,15 @@ def replay(payload):
         sidx = payload['index']
         spdx_T = [(e.get('spdx_license_key', ''), [a for a in (e.get('other_spdx_license_keys', []) or [])], bool(e.get('is_exception', '')))
                   for e in sidx if e.get('spdx_license_key') and not e.get('is_deprecated', False)]
+        for fn in ('build_licensing', 'build_spdx_licensing'):
+            try:
+                getattr(le, fn)(sidx)
+            except (ValueError, le.ExpressionError):
+                pass
+            except Exception as ex:   # noqa
+                return False, '%s raised %s: %s' % (fn, type(ex).__name__, ex)
+        if payload.get('key') == 'synthetic-crash':
+            return True, 'both builders accept or refuse the index'
         try:
             le.build_spdx_licensing(sidx)
             got = True
